@@ -153,7 +153,7 @@ def run_case(case, name):
 
         def handle(self, h, k):
             rec["trace"].append([k, to_q(sim.simulator_time)])
-            rec["log"].append(["exec", k, to_q(sim.simulator_time)])
+            rec["log"].append(["exec", k, to_q(sim.simulator_time), h])
             self.interp(h)
 
         def interp(self, h):
